@@ -73,10 +73,18 @@ func (e *env) typeOfConstructor(d *rtl.Decl) reflect.Type {
 
 var bytesLens = []int{5, 0, 1, 2, 3, 4, 253, 254, 255, 256, 257, 65535, 65536}
 
+// Mark is the position of a length / count prefix or a constructor id inside a reference encoding.
+type Mark struct {
+	Off, Len int
+	Kind     string // "bytes-len", "vector-count", "tag", "flags"
+}
+
 type builder struct {
-	e       *env
-	c       *enum.Ctx
-	longLen int // >=0: the first bytes field takes exactly this length (every length 0..1100)
+	marks    []Mark
+	base     int
+	e        *env
+	c        *enum.Ctx
+	longLen  int // >=0: the first bytes field takes exactly this length (every length 0..1100)
 	usedLong bool
 }
 
@@ -767,4 +775,133 @@ func firstDiff(a, b []byte) int {
 		}
 	}
 	return min(len(a), len(b))
+}
+
+// Encoded is one valid TL encoding with the positions of its prefixes (used by C08 for mutation).
+type Encoded struct {
+	Decl   *rtl.Decl
+	GoType reflect.Type
+	Bytes  []byte
+	Marks  []Mark
+}
+
+// Env exposes the parsed schema and the Go bindings to other harnesses.
+type Env = env
+
+// LoadEnv parses lite_api.tl from the repository.
+func LoadEnv(seed int) (*Env, error) { return loadEnv(seed) }
+
+// Decls returns all declarations.
+func (e *env) Decls() []*rtl.Decl { return e.schema.Decls }
+
+// Encode builds one valid value of the declaration (choices from c) and returns its reference encoding.
+func (e *env) Encode(c *enum.Ctx, d *rtl.Decl) (*Encoded, error) {
+	t := e.typeOfConstructor(d)
+	if t == nil {
+		return nil, fmt.Errorf("no Go type for %s", d.Name)
+	}
+	v := reflect.New(t).Elem()
+	b := &builder{e: e, c: c, longLen: -1}
+	body, err := b.decl(d, v)
+	if err != nil {
+		return nil, err
+	}
+	return &Encoded{Decl: d, GoType: t, Bytes: body, Marks: scanMarks(e, d, body)}, nil
+}
+
+// scanMarks re-parses a reference encoding with the schema to find prefix positions.
+func scanMarks(e *env, d *rtl.Decl, body []byte) []Mark {
+	var marks []Mark
+	pos := 0
+	var walkDecl func(d *rtl.Decl) bool
+	var walkType func(typ string) bool
+	walkType = func(typ string) bool {
+		switch {
+		case typ == "int" || typ == "#":
+			pos += 4
+		case typ == "long":
+			pos += 8
+		case typ == "int256":
+			pos += 32
+		case typ == "Bool":
+			marks = append(marks, Mark{pos, 4, "tag"})
+			pos += 4
+		case typ == "bytes" || typ == "string":
+			if pos >= len(body) {
+				return false
+			}
+			n, hdr := int(body[pos]), 1
+			if body[pos] == 0xfe {
+				if pos+4 > len(body) {
+					return false
+				}
+				n, hdr = int(body[pos+1])|int(body[pos+2])<<8|int(body[pos+3])<<16, 4
+			}
+			marks = append(marks, Mark{pos, hdr, "bytes-len"})
+			tot := hdr + n
+			for tot%4 != 0 {
+				tot++
+			}
+			pos += tot
+		case strings.HasPrefix(typ, "vector "):
+			if pos+4 > len(body) {
+				return false
+			}
+			n := int(binary.LittleEndian.Uint32(body[pos:]))
+			marks = append(marks, Mark{pos, 4, "vector-count"})
+			pos += 4
+			el := strings.TrimSpace(strings.TrimPrefix(typ, "vector "))
+			for i := 0; i < n; i++ {
+				if !walkType(el) {
+					return false
+				}
+			}
+		default:
+			if dd := e.schema.Constructor(typ); dd != nil && !dd.Func {
+				return walkDecl(dd)
+			}
+			if ds := e.schema.Boxed(typ); len(ds) > 0 {
+				if pos+4 > len(body) {
+					return false
+				}
+				id := binary.LittleEndian.Uint32(body[pos:])
+				marks = append(marks, Mark{pos, 4, "tag"})
+				pos += 4
+				for _, dd := range ds {
+					if dd.ID == id {
+						return walkDecl(dd)
+					}
+				}
+				return false
+			}
+			return false
+		}
+		return pos <= len(body)
+	}
+	walkDecl = func(d *rtl.Decl) bool {
+		flags := map[string]uint32{}
+		for _, f := range d.Fields {
+			if f.Type == "#" {
+				if pos+4 > len(body) {
+					return false
+				}
+				flags[f.Name] = binary.LittleEndian.Uint32(body[pos:])
+				marks = append(marks, Mark{pos, 4, "flags"})
+				pos += 4
+				continue
+			}
+			if f.Flag != "" && flags[f.Flag]>>uint(f.Bit)&1 == 0 {
+				continue
+			}
+			if f.Type == "true" {
+				continue
+			}
+			if !walkType(f.Type) {
+				return false
+			}
+		}
+		return true
+	}
+	walkDecl(d)
+	return marks
 }
